@@ -2,7 +2,7 @@
 fitted parameters."""
 import ast
 
-from sa.helpers import (validated, unlicensed, the_return, mkflow, spec, code, one, calls, bind_call, param_env,
+from sa.helpers import (guard_is, same_cond, validated, unlicensed, the_return, mkflow, spec, code, one, calls, bind_call, param_env,
                         fmt, atom_of, unparse, walk_no_nested, unalloc)
 from sa.index import AnalysisError, FuncInfo
 from sa.algebra import RF, dotted
@@ -133,8 +133,9 @@ def mutators(ix, R):
         f = ix.func(site)
         fl = mkflow(ix, site)
         rs = fl.of('raise')
-        ok = any("('log', 'linear')" in g.text() or "('linear', 'log')" in g.text()
-                 for r in rs for g in r.guards)
+        ps_ = f.params()
+        okset = [spec(fl, "P.lower() in %s" % t, {'P': fl.tab.name(ps_[2])}) for t in ("('log', 'linear')", "('linear', 'log')")]
+        ok = any(guard_is(fl, g, w, False) for r in rs for g in r.guards for w in okset)
         st = one(fl.of('store'), 'store')
         ok = ok and fl.events.index(rs[0]) < fl.events.index(st) if rs else False
         R.check('5.mode', 'DOM', site, "a mode other than 'log'/'linear' raises before anything is written",
@@ -150,11 +151,20 @@ def mutators(ix, R):
         st = [e for e in fl.of('store')]
         ok = used == {'fittingParameters'} and rs and st and \
             fl.events.index(rs[0]) < fl.events.index(st[0]) and \
-            any('not in obj.fittingParameters' in g.text() for g in rs[0].guards)
+            any(_is_table_test(fl, g, fl.tab.name(f.params()[1])) for g in rs[0].guards)
         R.check('1.set_prior', 'SIB', site,
                 'set_prior checks the name against the fitting table of the selected object and raises before storing',
                 ok, key='set_prior check', detail='tests %s, raises %d, stores %d' % (sorted(used), len(rs), len(st)),
                 loc=f.loc())
+
+
+def _is_table_test(fl, g, par):
+    """guard g means `par not in <something>.fittingParameters`"""
+    a = atom_of(fl, g.rf) if g.rf is not None else None
+    if a is None or a.head != 'cmp' or a.extra[0] != 'In' or g.positive:
+        return False
+    return fl.tab.equal(a.args[0], par) and fmt(fl, a.args[1]).endswith('fittingParameters') or \
+        fl.tab.equal(a.args[0], par) and 'fittingParameters' in fmt(fl, a.args[1])
 
 
 def prior_table(ix, R):
@@ -321,8 +331,16 @@ def compile_fn(ix, R):
         pe = param_env(fl, f, ['fit', 'der', 'pri'])
         # loop over fit.values(), unpack 7
         apps = calls(fl, 'append')
-        fp = [e for e in apps if unparse(e.node.func.value) == 'fitting_parameters']
-        pr = [e for e in apps if unparse(e.node.func.value) == 'fitting_priors']
+        # the three result lists are identified by their position in the returned tuple, not by their names
+        r0 = the_return(fl)
+        relts = r0.value_ast.elts if isinstance(r0.value_ast, ast.Tuple) and len(r0.value_ast.elts) == 4 else None
+        if relts is None or not all(isinstance(x, ast.Name) for x in relts):
+            R.fail('4.ret', 'ARG', site, 'returns (fitted tuples, their priors, prior table, derived tuples)',
+                   key=unparse(r0.value_ast), detail='returns %s' % unparse(r0.value_ast), loc=f.loc(r0.node))
+            return
+        n_fit, n_pri, n_tbl, n_der = [x.id for x in relts]
+        fp = [e for e in apps if unparse(e.node.func.value) == n_fit]
+        pr = [e for e in apps if unparse(e.node.func.value) == n_pri]
         a = one(fp, 'append to fitting_parameters')
         lp = one(a.loops, 'loop')
         item = fl.tab.atom('elem', (lp.iter_rf[0], lp.index))
@@ -394,7 +412,7 @@ def compile_fn(ix, R):
                 'a stored prior is looked up by the parameter name; one prior per fitted parameter, same order',
                 not why, key='; '.join(why), detail='; '.join(why), loc=f.loc(pr[0].node) if pr else f.loc())
         # derived
-        dp = [e for e in apps if unparse(e.node.func.value) == 'derived_parameters']
+        dp = [e for e in apps if unparse(e.node.func.value) == n_der]
         d = one(dp, 'append to derived_parameters')
         dl = one(d.loops, 'loop')
         ditem = fl.tab.atom('elem', (dl.iter_rf[0], dl.index))
@@ -406,8 +424,7 @@ def compile_fn(ix, R):
                 okd, key='derived selection', detail='derived appended under %s' % [g.text() for g in d.guards],
                 loc=f.loc(d.node))
         r = the_return(fl)
-        okr = [unparse(x) for x in r.value_ast.elts][:2] == ['fitting_parameters', 'fitting_priors'] and \
-            unparse(r.value_ast.elts[3]) == 'derived_parameters' and not r.guards and not r.loops
+        okr = not r.guards and not r.loops and len({n_fit, n_pri, n_tbl, n_der}) == 4
         ra = atom_of(fl, r.value)
         okr = okr and ra is not None and ra.head == 'tuple' and len(ra.args) == 4 and bool(tblv) and \
             fl.tab.equal(ra.args[2], tblv[0].value)
@@ -468,7 +485,8 @@ def tuple_layout(ix, R):
     with R.guard('8.def', 'SIB', site, 'tuple definition'):
         f = ix.func(site)
         ps = f.params()[1:]
-        st = one([n for n in walk_no_nested(f.node) if isinstance(n, ast.Assign)], 'store')
+        st = one([n for n in walk_no_nested(f.node) if isinstance(n, ast.Assign) and
+                  isinstance(n.targets[0], ast.Subscript)], 'store')
         elts = [unparse(e) for e in st.value.elts]
         want = [ps[0], ps[1], ps[2] + '.__get__(self)', ps[3] + '.__get__(self)', ps[4], ps[5], ps[6]]
         R.check('8.def', 'SIB', site, 'fitting tuple = (name, latex, getter, setter, mode, fit flag, bounds)',
@@ -478,7 +496,8 @@ def tuple_layout(ix, R):
     with R.guard('8.def.d', 'SIB', site, 'derived tuple definition'):
         f = ix.func(site)
         ps = f.params()[1:]
-        st = one([n for n in walk_no_nested(f.node) if isinstance(n, ast.Assign)], 'store')
+        st = one([n for n in walk_no_nested(f.node) if isinstance(n, ast.Assign) and
+                  isinstance(n.targets[0], ast.Subscript)], 'store')
         elts = [unparse(e) for e in st.value.elts]
         R.check('8.def.d', 'SIB', site, 'derived tuple = (name, latex, getter, compute flag)',
                 elts == [ps[0], ps[1], ps[2] + '.__get__(self)', ps[3]] and
@@ -531,9 +550,18 @@ def tuple_layout(ix, R):
             if isinstance(n, ast.Assign) and isinstance(n.targets[0], ast.Tuple):
                 names = [e.id if isinstance(e, ast.Name) else None for e in n.targets[0].elts]
                 src = unparse(n.value)
-                is_fit = 'fittingParameters[' in src or '_param_dict[' in src or src in ('params', 'param') \
-                    and len(names) == 7
-                is_der = 'derivedParameters[' in src or (src == 'params' and len(names) == 4)
+                # a bare name is classified by the loop it is the target of
+                prov = ''
+                if isinstance(n.value, ast.Name):
+                    for lp_ in ast.walk(fn.node):
+                        if isinstance(lp_, ast.For) and any(isinstance(x, ast.Name) and x.id == n.value.id
+                                                            for x in ast.walk(lp_.target)) and \
+                                any(y is n for y in ast.walk(lp_)):
+                            prov = unparse(lp_.iter)      # innermost enclosing loop wins (walk is outside-in)
+                fitw = ('fittingParameters', 'fitparams', 'fitting_parameters', '_param_dict')
+                derw = ('derivedParameters', 'driveparams', 'derived_parameters', '_derived_dict')
+                is_fit = any(w + '[' in src for w in ('fittingParameters', '_param_dict')) or any(w in prov for w in fitw)
+                is_der = 'derivedParameters[' in src or (any(w in prov for w in derw) and not is_fit)
                 if is_fit and len(names) != 4:
                     n7 += 1
                     ok = len(names) == 7
@@ -613,11 +641,20 @@ def getters_setters(ix, R):
                 s = setters[0]
                 gb, sb = g.body(), s.body()
                 val = s.params()[1] if len(s.params()) > 1 else None
-                if len(gb) == 1 and isinstance(gb[0], ast.Return) and dotted(gb[0].value) and \
-                        dotted(gb[0].value).startswith('self.'):
-                    attr = dotted(gb[0].value)
-                    ok = len(sb) == 1 and isinstance(sb[0], ast.Assign) and \
-                        dotted(sb[0].targets[0]) == attr and unparse(sb[0].value) == val
+                # by flow, so that an unrelated extra statement or a temporary does not matter
+                gfl = mkflow(ix, g)
+                sfl = mkflow(ix, s)
+                try:
+                    gr = the_return(gfl)
+                except AnalysisError:
+                    gr = None
+                ga = atom_of(gfl, gr.value) if gr is not None and gr.value is not None else None
+                if ga is not None and ga.head in ('attr', 'name') and str(ga.args[0]).startswith('self.'):
+                    attr = ga.args[0]
+                    sts = [e for e in sfl.of('store') + sfl.of('aug')]
+                    ok = len(sts) == 1 and fmt(sfl, sts[0].target) == attr and val is not None and \
+                        sfl.tab.equal(sts[0].value, sfl.tab.name(val)) and not sts[0].guards and not sts[0].loops \
+                        and getattr(sts[0], 'op', None) is None
                     if not ok:
                         why.append('getter returns %s, setter does %s' % (attr, '; '.join(unparse(x) for x in sb)))
                 else:
@@ -698,7 +735,7 @@ def collect(ix, R):
                 continue
             seen.add(key)
             lic = srcs[key]
-            bad = [g for g in e.guards if not (lic is not None and g.positive and fl.tab.equal(g.rf, spec(fl, lic)))]
+            bad = [g for g in e.guards if not (lic is not None and guard_is(fl, g, spec(fl, lic), True))]
             if bad:
                 why.append('%s collected only under %s' % (key, [g.text() for g in bad]))
         if seen != set(srcs):
